@@ -217,7 +217,7 @@ func r062(c *Ctx) {
 				// which service value is nil here
 				knownNil := false
 				for _, ce := range dominatingConds(ret.Block()) {
-					if cm, ok := asCmp(ce.cond, ce.taken); ok && (isNilConst(cm.x) || isNilConst(cm.y)) {
+					if cm, ok := ce.asCmp(); ok && (isNilConst(cm.x) || isNilConst(cm.y)) {
 						knownNil = true
 					}
 				}
